@@ -24,7 +24,9 @@ R4  index/coordinate    the cell search floor((x - O) / h) and the node coordina
                         selected in lock-step and filtered with the same masks; the overriding interpolate /
                         gradient fill missing values before delegating, with unchanged arguments; the value
                         array read is the one aligned with the searched coordinate array; user-ordered
-                        coordinates appended to _pt are permuted with the permutation returned by the table.
+                        coordinates appended to _pt are permuted with the permutation returned by the table;
+                        caller-supplied values OVERWRITE (additive=False, explicitly or by the callee's default); the
+                        cell index of the unbounded adaptive lattice is a FLOOR, not an int() truncation.
 R6  closed box          dense table: the cell search accepts x = high on an axis and then takes the last node as base; every vertex
                         base + 1 on that axis (outside the grid) has zero weight in interpolate and in gradient for every axis.
 R5  space typing        the default base point has one entry per PARAMETER axis (it is zipped with the rows of the
